@@ -10,6 +10,9 @@ LP/Cert.vos LP/Cert.vok LP/Cert.required_vos: LP/Cert.v LP/ILP.vos
 LP/CertSound.vo LP/CertSound.glob LP/CertSound.v.beautified LP/CertSound.required_vo: LP/CertSound.v LP/Cert.vo
 LP/CertSound.vio: LP/CertSound.v LP/Cert.vio
 LP/CertSound.vos LP/CertSound.vok LP/CertSound.required_vos: LP/CertSound.v LP/Cert.vos
+LP/Unique.vo LP/Unique.glob LP/Unique.v.beautified LP/Unique.required_vo: LP/Unique.v LP/CertSound.vo
+LP/Unique.vio: LP/Unique.v LP/CertSound.vio
+LP/Unique.vos LP/Unique.vok LP/Unique.required_vos: LP/Unique.v LP/CertSound.vos
 LP/User.vo LP/User.glob LP/User.v.beautified LP/User.required_vo: LP/User.v LP/ILP.vo
 LP/User.vio: LP/User.v LP/ILP.vio
 LP/User.vos LP/User.vok LP/User.required_vos: LP/User.v LP/ILP.vos
